@@ -142,10 +142,36 @@ class CallGraph:
                 return True
         return False
 
+    def _fresh_local(self, w: 'Write') -> bool:
+        """The write mutates a plain local of the writing unit that only ever holds containers built in that unit (`acc = []` ... `acc.append(x)`): not an effect anybody
+        else can observe."""
+        if w.base is not None:
+            return False
+        memo = self.__dict__.setdefault('_fresh_memo', {})
+        key = (w.unit.key, w.attr)
+        if key not in memo:
+            fn = w.unit.node
+            binds: list[ast.AST] = []
+            ok = True
+            params = {a.arg for a in fn.args.posonlyargs + fn.args.args + fn.args.kwonlyargs} | ({fn.args.vararg.arg} if fn.args.vararg else set()) | ({fn.args.kwarg.arg} if fn.args.kwarg else set())
+            if w.attr in params:
+                ok = False
+            for n in own_nodes(fn):
+                if isinstance(n, (ast.Global, ast.Nonlocal)) and w.attr in n.names:
+                    ok = False
+                elif isinstance(n, (ast.Assign, ast.AnnAssign)) and n.value is not None and any(isinstance(t, ast.Name) and t.id == w.attr for t in (n.targets if isinstance(n, ast.Assign) else [n.target])):
+                    binds.append(n.value)
+                elif isinstance(n, ast.Name) and n.id == w.attr and isinstance(n.ctx, ast.Store) and not isinstance(parent(n), (ast.Assign, ast.AnnAssign)):
+                    ok = False  # bound by a loop / with / unpacking: may name anything
+            fresh = lambda v: isinstance(v, (ast.List, ast.Dict, ast.Set, ast.ListComp, ast.DictComp, ast.SetComp)) or \
+                (isinstance(v, ast.Call) and isinstance(v.func, ast.Name) and v.func.id in ('list', 'dict', 'set', 'defaultdict', 'deque') and all(isinstance(a, (ast.Name, ast.Constant)) for a in v.args))  # noqa: E731
+            memo[key] = ok and bool(binds) and all(fresh(v) for v in binds)
+        return memo[key]
+
     def _compute_twrites(self) -> None:
         cur: dict[tuple[str, str], set[str]] = {}
         for k, ws in self.writes.items():
-            cur[k] = {w.attr for w in ws}
+            cur[k] = {w.attr for w in ws if not self._fresh_local(w)}
             if any(r == 'opaque' for _, r in self.edges[k]):
                 cur[k].add('*')
         changed = True
@@ -170,7 +196,7 @@ class CallGraph:
         out: set[str] = set()
         ids = {id(x) for x in ast.walk(st)}
         for w in self.writes.get(u.key, []):
-            if id(w.node) in ids:
+            if id(w.node) in ids and not self._fresh_local(w):
                 out.add(w.attr)
         for c, r in self.edges.get(u.key, []):
             if id(c) in ids or id(c.func) in ids:
